@@ -29,9 +29,11 @@ func genHandlers(r *lib.Rng, n int) []HSpec {
 					h.Needs = append(h.Needs, t)
 				}
 			}
+			h.Builder = r.Chance(1, 2)
 		case 2: // a TimingChecker that wants everything
 			h.Checker = true
 			h.Needs = []int{0, 1, 2, 3, 4}
+			h.Builder = r.Chance(1, 3)
 		}
 		switch r.Intn(8) {
 		case 0:
